@@ -419,6 +419,21 @@ func (c *Ctx) checkAsyncCtx(typ string) {
 				ok = false
 				c.violated("C14.async-run", consRun, run.Pos(), "the call is executed although its context was found done", c.witness(t, len(t.Events)-1)...)
 			}
+			if ctxDone && userCalls == 0 && t.End == EndReturn && ok {
+				// a skipped call is finished with an error: r() chooses at random between ctx.Done and wait when both
+				// are ready, and the wait branch hands out (result, err) as stored here
+				errSet := false
+				for i := 0; i < closeIdx || (closeIdx >= 0 && t.Events[closeIdx].Deferred && i < len(t.Events)); i++ {
+					e := t.Events[i]
+					if e.Kind == EvStore && e.Addr.isFieldAddrOf(errF) && !e.Val.isNilConst() {
+						errSet = true
+					}
+				}
+				if !errSet {
+					ok = false
+					c.violated("C14.async-run", consRun, run.Pos(), "a call that is skipped because its context is already done is marked finished without an error being stored: when the caller's select takes the wait branch it receives (nil, nil), i.e. success for a call that never ran", c.witness(t, len(t.Events)-1)...)
+				}
+			}
 			if !ctxDone && userCalls == 0 && t.End == EndReturn && ok {
 				ok = false
 				c.violated("C14.async-run", consRun, run.Pos(), "an accepted call whose context is alive completes without being executed", c.witness(t, len(t.Events)-1)...)
